@@ -204,7 +204,47 @@ INTERIOR_WORDS = ("Mutex<", "RwLock<", "Atomic", "Cell<", "RefCell<", "UnsafeCel
 ACCEPTED_INTERIOR = ("OnceLock<", "LazyLock<")
 
 
+def completion_order_rule(ck, P):
+    """R-COMPLETION-ORDER: inside the reader types, results that arrive in COMPLETION order (buffer_unordered, FuturesUnordered, select_all,
+    join-set style collections) are never matched up by POSITION with data in submission order (zip, enumerate, indexing): under a
+    second caller that holds a lock one of the futures needs, completion order differs from submission order and values are attached to
+    the wrong key.  Carrying the key through the future (returning a (key, value) pair) is the accepted idiom."""
+    n_unordered, bad = 0, []
+    for b in P.bodies:
+        if "::container::" not in b["q"] or "::tests::" in b["q"] or "eader" not in b["q"]:
+            continue
+        lets = {}
+        for y in ir.walk_nodes(b["body"]):
+            if y.get("k") == "let" and "init" in y and y["pat"].get("k") == "bind":
+                lets[y["pat"]["hid"]] = y
+        for y in ir.walk_nodes(b["body"]):
+            if not (y.get("k") == "mcall" and y.get("name") in ("buffer_unordered", "try_buffer_unordered", "for_each_concurrent") or
+                    (y.get("k") == "call" and (y.get("q") or "").endswith(("FuturesUnordered::new", "stream::select_all", "select_all::select_all", "JoinSet::new")))):
+                continue
+            n_unordered += 1
+            # the local that receives the unordered results (the let whose initialiser contains this call)
+            holders = [h for h, l_ in lets.items() if ir.contains(l_["init"], lambda z: z is y)]
+            for h in holders:
+                for z, parents, _ in ir.walk(b["body"]):
+                    if z.get("k") == "path" and z.get("r") == "local" and z.get("hid") == h:
+                        par = [p_ for p_ in parents[-4:] if p_.get("k") in ("mcall", "index", "call")]
+                        for p_ in par:
+                            if (p_.get("k") == "mcall" and p_.get("name") in ("zip", "enumerate", "get", "nth")) or p_.get("k") == "index" or \
+                                    (p_.get("k") == "call" and (p_.get("q") or "").endswith(("iter::zip", "izip"))):
+                                bad.append("%s: results of `%s` are paired by position (`%s`) at %s" % (b["q"].rsplit("::", 1)[-1], y.get("name") or y.get("q"), p_.get("name") or p_.get("k"), ir.loc(p_)))
+                                break
+            # the same within one chain: .buffer_unordered(..).zip(..) / .enumerate()
+            for z, parents, _ in ir.walk(b["body"]):
+                if z is y:
+                    for p_ in reversed(parents):
+                        if p_.get("k") == "mcall" and ir.contains(p_["recv"], lambda w: w is y) and p_.get("name") in ("zip", "enumerate"):
+                            bad.append("%s: `%s` directly after `%s` at %s" % (b["q"].rsplit("::", 1)[-1], p_["name"], y.get("name"), ir.loc(p_)))
+    ck.check(not bad, "R-COMPLETION-ORDER", "readers|no-positional-pairing", "no reader pairs completion-ordered results with submission-ordered data by position (%d unordered collection site(s))" % n_unordered,
+             "completion-ordered results are matched by position: %s — with a second caller contending for a lock the order differs and tiles get another tile's index or bytes" % bad[:2])
+
+
 def rules(ck, P):
+    completion_order_rule(ck, P)
     # ---------------- R-POS-IO
     n_fns = 0
     n_cursor = 0
